@@ -105,6 +105,52 @@ def forward_programs():
     return out
 
 
+def forward_family():
+    """a forward function used 1-4 function levels below its declaration, from a function declared BEFORE the
+    implementation and called after it; decoy functions of the same signature and extra locals at the
+    intermediate levels shift every cell index; the forward lives at top level or inside a function.
+    All variants are valid programs: the values follow from lexical scoping alone."""
+    out = []
+    ps1 = [P("i", "int")]
+    n = 0
+    for where in ("top", "fn"):
+        for depth in (1, 2, 3, 4):
+            for mask in range(2 ** depth):
+                for late_decl in (False, True):
+                    if late_decl and mask not in (0, 2 ** depth - 1):
+                        continue
+                    n += 1
+                    fid = 100 + n
+                    # innermost level first
+                    names = ["a%d" % k for k in range(1, depth + 1)]
+                    body = None
+                    for lvl in range(depth, 0, -1):
+                        arg = V("x%d" % lvl)
+                        decls = []
+                        if mask & (1 << (lvl - 1)):
+                            decls.append(LET("pad%d" % lvl, I(lvl)))
+                            decls.append(FN("decoy%d" % lvl, ps1, "int", OP("sub", V("i"), I(1000 * lvl))))
+                        if lvl == depth:
+                            ret = OP("add", C("h", [arg]), I(1))
+                        else:
+                            decls.append(body)
+                            ret = OP("add", C(names[lvl], [arg]), I(10 ** lvl))
+                        if mask & (1 << (lvl - 1)):
+                            ret = OP("add", ret, OP("mul", C("decoy%d" % lvl, [I(0)]), I(0)))
+                        body = FN(names[lvl - 1], [P("x%d" % lvl, "int")], "int", ret, decls=decls)
+                    h_def = FN("h", ps1, "int", OP("mul", V("i"), I(2)), fulfils=fid)
+                    fwd = FWD("h", ps1, "int", fid)
+                    pre = [LET("p1", I(1)), LET("p2", I(2))]
+                    core = pre + ([fwd, h_def, body] if late_decl else [fwd, body, h_def])
+                    if where == "top":
+                        decls = core + [LET("r0", C("a1", [I(1)])), LET("r1", C("a1", [I(20)]))]
+                    else:
+                        m = FN("m", [], "(int, int)", {"k": "tup", "items": [C("a1", [I(1)]), C("a1", [I(20)])]}, decls=core)
+                        decls = [m, LET("r0", C("m", []))]
+                    out.append({"id": "fwfam%d" % n, "decls": decls, "calls": [], "lim": dict(NOLIM), "hasfwd": True})
+    return out
+
+
 def scoping_templates():
     """hand-written shapes the random generator reaches only rarely"""
     out = []
@@ -147,14 +193,14 @@ def run(chk, tier, seed):
              for i in range(n)]
     progs += [coregen.Gen(seed * 223 + i, max_depth=4, n_decls=(14 if tier == "quick" else 30), scope_heavy=True, p_disp=0.15,
                           p_err=0.02).program("t%d" % i) for i in range(n // 10)]
-    progs += scoping_templates() + forward_programs() + identifier_programs()
+    progs += scoping_templates() + forward_programs() + forward_family() + identifier_programs()
     for b in range(0, len(progs), 1500):
         corecheck.run_core(chk, progs[b:b + 1500], "c03-%d" % b,
                            classify=lambda p, diffs: "core:" + p["id"] if p["id"].startswith("fw_") else None)
     chk.cov["rule"] = ("scope-heavy random programs (nested functions to depth 4, shadowing of top-level and local "
                        "bindings, closures returned / stored in tuples / passed to map, defaults with output, recursion), "
                        "hand-written shapes (capture distance 1-4 with later shadowing, per-call closures, one-time and "
-                       "per-creation defaults, recursion through captures), 11 forward-declaration orders, all %d pairs of "
+                       "per-creation defaults, recursion through captures), 20 forward-declaration orders, a family of forward uses 1-4 levels deep with decoys, at top level and inside a function, all %d pairs of "
                        "a %d-spelling identifier pool; non-trivial = distinct rendered program" %
                        (len(SPELLINGS) * (len(SPELLINGS) - 1) // 2, len(SPELLINGS)))
 
